@@ -206,7 +206,7 @@ impl VerifService {
 
     /// Events queued in the service's event channel.
     pub fn queued_events(&self) -> usize {
-        self.tx.max_capacity() - self.tx.capacity()
+        self.service.verif_queue_len()
     }
 
     /// A substream object as `tcp/connection.rs` builds it (real `tcp::Substream` over a stream of
